@@ -48,6 +48,23 @@ func AnchorRules(c *an.Ctx) {
 		return
 	}
 	id := "R" + strings.TrimPrefix(c.Prop, "C")
+	// positive examples first: a lint that no longer fires on its own pattern proves nothing
+	got, err := an.LintSelfTest()
+	if err != nil {
+		c.Add(an.Obligation{Rule: id + ".L0", Construct: "lint self-test", Status: an.UNDECIDED, Detail: "the positive examples do not type-check: " + err.Error()})
+	} else {
+		var dead []string
+		for _, k := range an.SelfTestKinds {
+			if !got[k] {
+				dead = append(dead, k)
+			}
+		}
+		if len(dead) > 0 {
+			c.Add(an.Obligation{Rule: id + ".L0", Construct: "lint self-test", Status: an.UNDECIDED, Detail: "lints that no longer fire on their positive example: " + strings.Join(dead, ", ")})
+		} else {
+			c.Okf(id+".L0", "lint self-test", "%d deviance lints each fire on a positive example embedded in the checker", len(an.SelfTestKinds))
+		}
+	}
 	funcs := anchorFuncs(c)
 	rule := id + ".L1"
 	for _, f := range funcs {
@@ -63,6 +80,26 @@ func AnchorRules(c *an.Ctx) {
 	anchorTplCalls(c, id+".L5")
 	anchorCopies(c, id+".L6", funcs)
 	anchorTplChains(c, id+".L7")
+	anchorTplRanges(c, id+".L8")
+}
+
+// anchorTplRanges: a two-variable range in an anchor template uses its element.
+func anchorTplRanges(c *an.Ctx, rule string) {
+	n := 0
+	for _, rel := range anchorTemplates(c) {
+		t, err := c.TplFile(rel)
+		if err != nil {
+			continue // reported by L7
+		}
+		k, bad := an.TplUnusedRangeVars(t)
+		n += k
+		for _, b := range bad {
+			c.Failf(rule, fmt.Sprintf("%s#range(%s,%s)", rel, b.Index, b.Elem), 0, "%s:%d: the range declares %s and %s but its body only uses the index %s: it emits positions instead of the elements it iterates over", rel, b.Line, b.Index, b.Elem, b.Index)
+		}
+	}
+	if n > 0 {
+		c.Okf(rule, "anchor templates#range elements", "%d two-variable ranges use their element variable", n)
+	}
 }
 
 // anchorTplChains: in the anchor templates an if/else-if chain that has both a
